@@ -8,7 +8,7 @@ use neurons::tensor::{Data, Shape, Tensor};
 pub fn meta(_ctx: &Ctx) -> Meta {
     Meta {
         rule: "ops {add,sub,mul,hadamard*scalar,div-by-scalar,mean over k=1..4 (also on operands near +-f32::MAX whose sum leaves the range while their mean does not)} x ranks 1-D..4-D (nested lists for add/div) x all shapes with extents in {1,2,3} x operand valuations covering ALL 169 ordered pairs over V={0,-0,1,-1,0.1,3,-7.5,2^-149,1e-30,1e30,MAX,5,1e-5} (cycled through the elements with every offset), plus operands that are entirely within 1e-5 of 1 or of 0 without being all ones / zeros, x scalars {1,0.5,2,-4,3,7,0.1,1e-39,3e38}; every ordered pair of different shapes of the lattice (and the empty vector against every shape, both ways round) must be refused by add/sub/mul/hadamard/mean; product/dot/transpose on integer data (r,c <= 4, and 1x33, 33x1, 4x40, 64x10, 10x65, 100x100, 3x257); the element-wise operations also on a vector of 1000, 40x40, 3x65, 2x33x5, 3x3x17x2; the free functions hadamard3d and pad3d on all CxHxW with extents <= 3; clamp over V x intervals incl. degenerate. Oracle: the single IEEE f32 operation per element, bit-exact. Non-trivial = case with >=2 elements or a shape-mismatch pair".into(),
-        bound: "extents <= 3 per axis, k <= 4; complete within the bound".into(),
+        bound: "extents <= 3 per axis, k <= 4, matrices <= 4x4; complete within the bound (thorough: extents <= 5, k <= 8, matrices <= 8x8)".into(),
         exhaustive: true,
         assumptions: vec!["hadamard: any association of a*b*scalar is accepted".into(), "mean: bit-exact on integer operands (exact sum, one rounding of the quotient); on general operands within the any-order summation bound eps*(k+2)*sum|x|/(k+1) of the f64 value".into()],
     }
@@ -16,7 +16,7 @@ pub fn meta(_ctx: &Ctx) -> Meta {
 
 const V: [f32; 13] = [0.0, -0.0, 1.0, -1.0, 0.1, 3.0, -7.5, 1.0e-45, 1.0e-30, 1.0e30, f32::MAX, 5.0, 1.0e-5];
 
-fn shapes() -> Vec<Vec<usize>> {
+fn shapes(maxext: usize) -> Vec<Vec<usize>> {
     let mut v = Vec::new();
     for rank in 1..=4usize {
         let mut idx = vec![1usize; rank];
@@ -28,7 +28,7 @@ fn shapes() -> Vec<Vec<usize>> {
                     break;
                 }
                 i -= 1;
-                if idx[i] < 3 {
+                if idx[i] < maxext {
                     idx[i] += 1;
                     for j in i + 1..rank {
                         idx[j] = 1;
@@ -484,8 +484,10 @@ pub fn check(case: &Kv, rep: &mut Report) {
     }
 }
 
-pub fn cases() -> Vec<Kv> {
-    let sh = shapes();
+pub fn cases(thorough: bool) -> Vec<Kv> {
+    // deeper bound (thorough): extents <= 5 per axis, means over up to 8 operands, matrices up to 8x8
+    let (maxext, kmax, mmax) = if thorough { (5usize, 8usize, 8usize) } else { (3usize, 4usize, 4usize) };
+    let sh = shapes(maxext);
     let mut out = Vec::new();
     for s in &sh {
         let n = count(s);
@@ -521,10 +523,13 @@ pub fn cases() -> Vec<Kv> {
                 }
             }
         }
-        for k in 1..=4 {
+        for k in 1..=kmax {
             for off in 0..5 {
                 out.push(Kv::new().put("op", "mean").put("shape", sname(s)).put("k", k).put("off", off * 9 + k).put("data", "int"));
                 out.push(Kv::new().put("op", "mean").put("shape", sname(s)).put("k", k).put("off", off * 2 + k).put("data", "gen"));
+                if k > 4 {
+                    continue;
+                }
                 out.push(Kv::new().put("op", "mean").put("shape", sname(s)).put("k", k).put("off", off + k).put("data", "big"));
             }
         }
@@ -545,9 +550,9 @@ pub fn cases() -> Vec<Kv> {
         out.push(Kv::new().put("op", "mismatch").put("a", sname(&empty)).put("b", sname(a)));
         out.push(Kv::new().put("op", "mismatch").put("a", sname(a)).put("b", sname(&empty)));
     }
-    for c in 1..=3usize {
-        for h in 1..=3usize {
-            for w in 1..=3usize {
+    for c in 1..=maxext {
+        for h in 1..=maxext {
+            for w in 1..=maxext {
                 for off in [0usize, 17, 60, 111] {
                     out.push(Kv::new().put("op", "free3d").put("c", c).put("h", h).put("w", w).put("off", off));
                 }
@@ -568,8 +573,8 @@ pub fn cases() -> Vec<Kv> {
         out.push(Kv::new().put("op", "mean").put("shape", sname(&sh)).put("k", 3).put("off", 5).put("data", "int"));
         out.push(Kv::new().put("op", "clamp").put("shape", sname(&sh)).put("off", 3).put("lo", -1.0).put("hi", 1.0));
     }
-    for r in 1..=4 {
-        for c in 1..=4 {
+    for r in 1..=mmax {
+        for c in 1..=mmax {
             for off in 0..6 {
                 out.push(Kv::new().put("op", "linalg").put("r", r).put("c", c).put("off", off));
             }
@@ -578,8 +583,8 @@ pub fn cases() -> Vec<Kv> {
     out
 }
 
-pub fn run(_ctx: &Ctx) -> Report {
-    let cs = cases();
+pub fn run(ctx: &Ctx) -> Report {
+    let cs = cases(ctx.tier.thorough());
     let parts = par_map(&cs, |_, c| {
         let mut r = Report::new();
         check(c, &mut r);
